@@ -1,6 +1,7 @@
 (* C04 -- assignment changes exactly the addressed cells.  Statements only. *)
 From Coq Require Import ZArith NArith List Bool String.
 From DM Require Import Base.PyVal Spec.Nf Spec.Table Spec.Ops Proofs.TableFacts Proofs.OpFacts.
+From DM Require Import Model.LTable Gen.KCore Model.Core Proofs.CoreRefine.
 Import ListNotations.
 
 Theorem C04_length_kept : forall ps xs cells, List.length (write_at ps xs cells) = List.length cells.
@@ -36,6 +37,15 @@ Theorem C04_other_tables_unchanged : forall w ti name a r j,
   (j < List.length (pool w))%nat -> ti <> j -> get (fst (step w (OSetCell ti name a r))) j = get w j.
 Proof. intros w ti name a r j H Hne. apply step_frame; [exact H|cbn; congruence]. Qed.
 Print Assumptions C04_other_tables_unchanged.
+
+(* col[selection] = value: the positions the implementation computes (MixedColumn: Index position cache;
+   numeric columns: argsort + searchsorted) are the positions of the selection's rows, whatever the row order *)
+Theorem C04_l1_selection_positions : forall t c key,
+  inv_b t = true -> In c (l_cols t) ->
+  (forall k, In k (ia (l_rowid key)) -> In k (ia (l_rowid t))) ->
+  sel_positions c key = all_some (map (fun r => pos_of r (ia (l_rowid t))) (ia (l_rowid key))).
+Proof. exact sel_positions_refines. Qed.
+Print Assumptions C04_l1_selection_positions.
 
 Example C04_example : write_at [2; 0]%nat [VInt 7; VInt 8] [VNone; VNone; VNone; VNone] = [VInt 8; VNone; VInt 7; VNone].
 Proof. reflexivity. Qed.
